@@ -299,6 +299,9 @@ func runC14(c *progCase) ([]Violation, *progStats) {
 					if write && err == nil && ok {
 						fuzzy[s.Key] = true
 					}
+					if err != nil && strings.Contains(err.Error(), "rollback failed") {
+						rollbackErrored = true
+					}
 					if err != nil && !tr.HasBegun() {
 						state, outcome = "ended", "rolledback"
 					}
